@@ -497,13 +497,22 @@ def run(chk, replay=None):
                        "current readable/writable/prependable); non-trivial = reaches makeSpace (grow or compact), the readFd spill, the "
                        "single-iovec readFd, a failed readv, a prepend or a rejected precondition; distinct by (op-kind sequence, events, final observer line)" % len(alphabet()))
     chk.cov["traces_validated_against_impl"] = len(cases) - len(corr_bad)
-    chk.add_obligation("correspondence: extracted C10_Model.step == muduo::net::Buffer on every case (all observers after every op)", not corr_bad)
-    chk.add_obligation("oracle: FIFO semantics on the implementation's own outputs", not oracle_bad)
+    chk.add_obligation("correspondence: extracted C10_Model.step_c == muduo::net::Buffer on every case (all observers after every op; "
+                       "the real class asserts exactly when the model rejects, violating calls included)", not corr_bad)
+    chk.add_obligation("oracle: FIFO semantics + precondition equivalence (an op is refused by the real class's assert iff its documented "
+                       "precondition fails) on the implementation's own outputs", not oracle_bad)
+    nviol = sum(1 for c in cases for l in (impl_out.get(c.cid) or []) if l.startswith("rejected "))
+    chk.cov["violating_calls_issued_on_the_real_class"] = nviol
     chk.trusted("extraction: ExtrOcamlBasic only; extract/util.ml + extract/C10_driver.ml (OCaml 4.13.1)",
-                "harness/C10_driver.cc (guards documented preconditions on public observers), pipe(2)+readv for readFd, "
+                "harness/C10_driver.cc (__assert_fail interposed with -Wl,--wrap: precondition-violating calls are issued on a heap copy "
+                "of the buffer and the REAL class's assert decides 'rejected' / 'ok noassert'; the driver's own test of the precondition "
+                "only chooses between the buffer and the copy), pipe(2)+readv for readFd, "
                 "readv interposed with -Wl,--wrap to record the offered iovecs and to inject errno",
-                "translators lib/gen_consts.py (kCheapPrepend/kInitialSize/extrabuf size) and lib/gen_C10.py (every comparison, "
-                "assertion, index assignment and size argument of Buffer.h/.cc) over the clang 14 JSON AST; lib/cxxast.py",
+                "translators lib/gen_consts.py (kCheapPrepend/kInitialSize/extrabuf size) and lib/gen_C10.py (if / assert conditions, "
+                "assignments to readerIndex_/writerIndex_/iov_len, integer returns of the size observers, integer arguments of member "
+                "calls, memchr/memcpy/string lengths, constructor initialisers, narrowing integer casts -- as functions over a record of "
+                "NAMED observables; not generated: std::copy/std::search ranges, the ?: of findCRLF, iov_base, swaps) over the clang 14 "
+                "JSON AST; lib/cxxast.py",
                 "std::vector growth, memcpy/std::copy/std::search/memchr themselves (ASan watches their ranges)")
 
     def shrink(c, pred):
